@@ -22,7 +22,7 @@ CHECKS = {
    ref="DESIGN.md section 4 C13"),
  "C14": dict(cat="model_checking", engine="gosched",
    technique="stateless model checking of the real conc_reader.go under a controlled cooperative scheduler (preemption/deviation-bounded DFS with happens-before state pruning), plus explicit BFS over call sequences against a reference model",
-   text="lib/rac/conc_reader.go is rewritten mechanically (go/ast, every chan/make/send/recv/select/close/go routed through a scheduler library injected with go build -overlay; unknown constructs abort the check) and the real rac.Reader is run for each (history, file, Concurrency 2/3) under every schedule within the bounds (quick: <=1 preemption and <=1 select/rendezvous deviation on 3 chunks, reduced bounds on 6/12 chunks; thorough: 2/2 and unbounded on 3 chunks): no deadlock, no goroutine left after Close, no panic, results equal a bytes.Reader+limit model in every schedule. Sequential readers (Concurrency 0/1) are explored by BFS over all call sequences to depth 3 (4) over a 41-symbol alphabet on 7 files.",
+   text="lib/rac/conc_reader.go is rewritten mechanically (go/ast, every chan/make/send/recv/select/close/go routed through a scheduler library injected with go build -overlay; unknown constructs abort the check) and the real rac.Reader is run for each (history, file, Concurrency 2/3) under every schedule within the bounds (quick: <=1 preemption and <=1 select/rendezvous deviation on 3 chunks, reduced bounds on 6/12 chunks; thorough: 2/2 and unbounded on 3 chunks): no deadlock, no goroutine left after Close, no panic, results equal a bytes.Reader+limit model in every schedule. Sequential readers (Concurrency 0/1) are explored by BFS over all call sequences to depth 3 (4) over a 41-symbol alphabet on 8 files (incl. a three-level index, depth 2). A free-running -race pass of the same histories complements the scheduled exploration (sampling; for data races only).",
    note="Threads share memory only through channels (the rewriter refuses sync/atomic/time; data races are invisible to a cooperative scheduler). Loan buffers are shrunk from 64 KiB to 8 bytes in the explored twin (capacity only). Map iteration in recycleBuffers is fixed, not explored. An identity codec replaces zlib in the scheduled runs.",
    ref="DESIGN.md section 4 C14, Appendix A"),
  "C15": dict(cat="fault_enumeration", engine="libmc",
